@@ -100,6 +100,17 @@ Definition py_decode_capped (sc : schema) (name : string) (bytes : list Z) : opt
   | None => None
   end.
 
+(* Python has one None: a decoded Optional[Optional[T]] whose outer flag is set and inner flag clear (reachable only from
+   corrupted input - the encoder cannot write it) is the same Python value as an absent one. The model's value is compared
+   after the same collapse. *)
+Fixpoint collapse (v : value) : value :=
+  match v with
+  | VSome x => match collapse x with VNone => VNone | y => VSome y end
+  | VList l => VList (map collapse l)
+  | VStruct kvs => VStruct (map (fun kv => (fst kv, collapse (snd kv))) kvs)
+  | _ => v
+  end.
+
 (* observed outcomes of the real code *)
 Inductive obs_dec := OVal (v : value) | OOverrun | OBadAscii | OOther.
 
@@ -126,7 +137,7 @@ Definition check_case (c : case) : bool :=
       | Dec bytes obs =>
           match py_decode_capped sc name bytes, obs with
           | Some (Ok v), OVal ov =>
-              match canon t ov with Some cv => value_eqb v cv | None => false end
+              match canon t ov with Some cv => value_eqb (collapse v) (collapse cv) | None => false end
           | Some (Raise Overrun), OOverrun => true
           | Some (Raise BadAscii), OBadAscii => true
           | _, _ => false
